@@ -1,7 +1,7 @@
 (* C06 — A refused manipulation changes nothing; calls on live nodes do not panic.
    Pinned statements only.  Model: Model/Store.v, Model/Manip.v (src/manipulation.rs, src/nodemap/core.rs). *)
 From Coq Require Import List NArith.
-From XotV Require Import Model.Base Model.Zipper Model.Access Model.Store Model.Manip Proofs.ManipProofs Proofs.InvSteps Proofs.Atomic Proofs.NoPanic.
+From XotV Require Import Model.Base Model.Zipper Model.Access Model.Store Model.Manip Proofs.ManipProofs Proofs.InvSteps Proofs.Atomic Proofs.NoPanic Proofs.CloneShape.
 Import ListNotations.
 Open Scope N_scope.
 
@@ -54,10 +54,19 @@ Print Assumptions C06_value_setters_total.
 (* "A manipulation call ... never panics apart from the documented panics of the element-only accessors": in every good store
    (C04: every reachable one) a call of the node-level API whose outcome is the model's Panic is either one of the element-only
    accessors applied to a non-element (the documented panics), or clone_node.
-   PARTIAL: clone_node is left out (its replay loop unwraps the result of every append it makes; that these succeed is the
-   clone-shape statement of C12, decided by the correspondence run).  Arguments need not even be live. *)
+   This first statement leaves clone_node out; C06_no_panic below closes it. *)
 Theorem C06_no_panic_partial :
   forall st o, Good st -> snd (mstep st o) = MPanic ->
     (exists n, o = OCloneNode n) \/ (exists e, element_only o = Some e /\ is_type st e TElement = false).
 Proof. exact no_panic_partial. Qed.
 Print Assumptions C06_no_panic_partial.
+
+(* Calls on live nodes do not panic, the whole node-level API: the only calls that reach a panic in a good store are the
+   element-only accessors applied to a non-element (the documented panics) and clone_node of a handle that denotes no node.
+   For clone_node this is the clone-shape theorem of C12 (Proofs/CloneShape.v): the replay of the source's edges never
+   unwraps a refused append or a missing parent, and the temporary top element does have the first child that is returned. *)
+Theorem C06_no_panic :
+  forall st o, Good st -> snd (mstep st o) = MPanic ->
+    (exists n, o = OCloneNode n /\ cur st n = None) \/ (exists e, element_only o = Some e /\ is_type st e TElement = false).
+Proof. exact no_panic. Qed.
+Print Assumptions C06_no_panic.
